@@ -65,6 +65,12 @@ int main(int argc, char** argv) {
       check(d, B.proj(P), "rank-one");
     }
     for (int w = 0; w < 3; w++) { check(d, probe(d, w), "dense"); check(d, scaled(probe(d, w), 1e100), "dense-scaled"); check(d, scaled(probe(d, w), 1e-100), "dense-scaled"); }
+    // well separated levels coupled weakly (mixing angles from 1e-6 down to 1e-14): the eigenvectors change in first order
+    for (double g : {1e-6, 1e-7, 1e-8, 3e-9, 1e-9, 1e-10, 1e-11, 1e-12, 1e-14}) for (int pat = 0; pat < 2; pat++) {
+      Mat M(d); for (int i = 0; i < d; i++) M(i, i) = (double)i * (pat ? 1.0 : -0.7) + (pat ? 0 : 0.3 * i * i);
+      for (int i = 0; i < d; i++) for (int j = i + 1; j < d; j++) if (pat || j == i + 1) { M(i, j) = cd(g * (1 + 0.1 * i), pat ? g * 0.5 : 0); M(j, i) = std::conj(M(i, j)); }
+      check(d, B.proj(M), "levels-plus-weak-coupling");
+    }
     // identity component and traceless part of independent magnitudes (incl. ones whose squares leave the double range)
     for (double c0 : {0.0, 1.0, -3.0, 1e5, 1e8, 2e154, -1e160, 1e165, 1e-160, 3e300}) for (double tm : {1.0, 1e-8, 1e8, 1e140, 1e152, 1e154, 1e-154, 1e-200, 1e-304, 3e-308}) {
       if (!(std::fabs(c0) <= 1e300 / 8 && tm <= 1e300 / 8)) { if (std::fabs(c0) > 1e300 / 8 && tm > 1e150) continue; }
